@@ -323,7 +323,7 @@ def mk_two_copies(name, lo, width=2.509):
     return body
 
 
-def mk_two_copies_text(name):
+def mk_two_copies_text(name, at_origin=False):
     """as O3, the far copy written into the PDB text itself (so that the coordinate columns are read, all 8 of them):
     offsets that make the fields 8 characters wide, along each axis"""
     def body(ctx):
@@ -332,16 +332,20 @@ def mk_two_copies_text(name):
         txt = with_hydrogens_text(name)
         axis = ctx.choice('axis', [0, 1, 2])
         off = ctx.choice('offset', [1004.0, 2000.0, 5011.5, 9000.0, -960.0, 64.0])
-        copy = []
+        copy, first = [], []
+        xyz = [[float(l[30:38]), float(l[38:46]), float(l[46:54])] for l in txt.split('\n') if l.startswith('ATOM')]
+        cen = [round(sum(p[i] for p in xyz) / len(xyz), 3) if at_origin else 0.0 for i in range(3)]
         for l in txt.split('\n'):
             if l.startswith('ATOM'):
-                c = [float(l[30:38]), float(l[38:46]), float(l[46:54])]
+                c = [float(l[30:38]) - cen[0], float(l[38:46]) - cen[1], float(l[46:54]) - cen[2]]
+                first.append(l[:30] + '%8.3f%8.3f%8.3f' % tuple(c) + l[54:])
                 c[axis] += off
                 copy.append(l[:21] + 'B' + l[22:30] + '%8.3f%8.3f%8.3f' % tuple(c) + l[54:])
             elif l:
                 copy.append(l)
+                first.append(l)
         base = _base_run(name)
-        both = M.run(txt + '\n'.join(copy) + '\n', args=['--keep-protons'])
+        both = M.run('\n'.join(first) + '\n' + '\n'.join(copy) + '\n', args=['--keep-protons'])
         gb = M.groups(base)
         g2 = M.groups(both)
         for (lab, typ), lst in gb.items():
@@ -429,6 +433,11 @@ def obligations(tier):
     for name in (['pair_ASP_ARG'] if tier == 'quick' else ['pair_ASP_ARG', 'pep8', 'pair_GLU_ARG_TYR', 'tri_ASP']):
         obs.append(Obligation('O3-two-copies-in-the-text[%s]' % name, mk_two_copies_text(name), code=['propka/atom.py:Atom.set_properties', 'propka/run.py:single (whole pipeline)'],
                               bounds='%s and a copy (chain B) written into the text 64, -960, 1004, 2000, 5011.5 or 9000 A away along x, y or z (18 concrete files)' % name, kind='table-check',
+                              claim_doc='each copy gets the desolvation and pKa of the structure alone', max_paths=200))
+    # an incompletely modelled residue in each part, the first part sitting at the coordinate origin (a point that does not move with a part)
+    for name in (['tri_ASP~-OD1-OD2@25'] if tier == 'quick' else ['tri_ASP~-OD1-OD2@25', 'tri_GLU~-OE1-OE2@21', 'tri_ASP~-OD2@25', 'pep8~-OD1-OD2@29']):
+        obs.append(Obligation('O3-two-copies-in-the-text[%s,first at the origin]' % name, mk_two_copies_text(name, at_origin=True), code=['propka/group.py:*Group.setup_atoms', 'propka/group.py:Group.set_center', 'propka/run.py:single (whole pipeline)'],
+                              bounds='%s (atoms after ~ removed) centred at the origin and a copy (chain B) 64 ... 9000 A away along x, y or z (18 concrete files); reference: the structure alone where it is in the file' % name, kind='table-check',
                               claim_doc='each copy gets the desolvation and pKa of the structure alone', max_paths=200))
     return obs
 
